@@ -176,3 +176,4 @@ def run_property(ctx):
 # registrations live in their own modules
 import reg_cl  # noqa: E402,F401
 import reg_q  # noqa: E402,F401
+import reg_util  # noqa: E402,F401
